@@ -55,6 +55,41 @@ def _parent_accessors(P):
     return out
 
 
+def _parent_lookup_helpers(P):
+    """(name, position of the OomdContext argument, position of the CgroupPath argument) of free / static helpers whose every value return
+    is <ctx argument>.addToCacheAndGet(<cgroup argument>.getParent()) - the optional handle of the parent's cached context."""
+    cache = P.__dict__.setdefault("_parent_lookup_helpers", None)
+    if cache is not None:
+        return cache
+    out = []
+    for h in P.fns.values():
+        if not h.file.startswith("oomd/") or h.kind not in ("function", "method") or not h.cfg or "optional" not in (h.d.get("ret") or "") or len(h.params) < 2:
+            continue
+        X = Expander(P, h)
+        vals = [X(h.nodes[r]["val"]) for r in returns(h) if "val" in h.nodes[r]]
+        vals = [v for v in vals if v not in ("std::nullopt", "{}")]
+        if not vals:
+            continue
+        m = [re.match(r"^param:(\w+)\.addToCacheAndGet\(param:(\w+)\.getParent\(\)\)$", v) for v in vals]
+        if all(m) and len({(x.group(1), x.group(2)) for x in m}) == 1:
+            names = [p_["name"] for p_ in h.params]
+            if m[0].group(1) in names and m[0].group(2) in names:
+                out.append((h.name, names.index(m[0].group(1)), names.index(m[0].group(2))))
+    P.__dict__["_parent_lookup_helpers"] = out
+    return out
+
+
+def _subst_parent_lookup(P, t):
+    for name, ic, ig in _parent_lookup_helpers(P):
+        def rep(mm):
+            args = [a.strip() for a in mm.group(1).split(",")]
+            if max(ic, ig) >= len(args):
+                return mm.group(0)
+            return "%s.addToCacheAndGet(%s.getParent())" % (args[ic], args[ig])
+        t = re.sub(r"(?:\b[\w:]*::)?\b%s\(([^()]*)\)" % re.escape(name), rep, t)
+    return t
+
+
 def effective_swap_scheme(ctx):
     """The three 'effective' swap statistics are folds over the ancestor chain: for a non-root cgroup every value returned is
     combine(parent's effective value, local value) - no path may answer from the local level alone."""
@@ -69,7 +104,7 @@ def effective_swap_scheme(ctx):
         for r in returns(f):
             if "val" not in f.nodes[r]:
                 continue
-            t = X(f.nodes[r]["val"])
+            t = _subst_parent_lookup(P, X(f.nodes[r]["val"]))
             g = fl.guards(r)
             if any(k == "this->cgroup_.isRoot()" and p is True for k, p in g):
                 continue            # the root's own value (system-wide numbers)
@@ -96,7 +131,9 @@ def effective_swap_scheme(ctx):
             ctx.check(bool(okl), "swap-fold:%s@%d" % (getter, f.nodes[r].get("line", 0)), "recursion scheme (sibling agreement)", f.loc(r),
                       okl[0] if okl else "", "%s returns '%s' for a non-root cgroup without combining it with the parent's %s: an ancestor that is closer to its "
                       "limit (because of sibling cgroups) is ignored, the statistic is no longer the %s over the ancestor chain" % (getter, t[:70], acc, comb[5:]))
-        ctx.check(folds >= 1, "swap-fold-present:" + getter, "recursion scheme (sibling agreement)", f.loc(), "%s folds over the ancestors" % getter, "%s has no %s(parent, local) return" % (getter, comb))
+        seen_rets = "; ".join(X(f.nodes[r]["val"])[:90] for r in returns(f) if "val" in f.nodes[r])
+        ctx.check(folds >= 1, "swap-fold-present:" + getter, "recursion scheme (sibling agreement)", f.loc(), "%s folds over the ancestors" % getter,
+                  "%s has no %s(parent, local) return (it returns: %s)" % (getter, comb, seen_rets))
     ctx.counters["swap_scheme_returns"] = n
     ctx.floor("swap_scheme_returns", 3, "value returns of the three effective-swap getters")
 
